@@ -162,7 +162,7 @@ def main():
     rep = common.Report(PID, "model_checking")
     rep.rule = ("one case = one declaration skeleton (scalar: type x initialiser; array: dtype x row lengths x shape declaration x "
                 "parameter positions x use) run symbolically through blackbird.loads; distinct = distinct skeletons")
-    rep.bounds = {"arrays": "rows<=3, columns<=3, ragged rows included", "declared shape": "absent / symbolic (2 solver ints) / exact / transposed",
+    rep.bounds = {"arrays": "rows<=3, columns<=3, ragged rows included; plus 1x12, 11x1, 2x10 (two-digit dimensions); int arrays also with float-valued entries", "declared shape": "absent / symbolic (2 solver ints) / exact / transposed",
                   "parameters per array": "<=2 (quick) / <=3 all positions (thorough)", "index": "A[k], k symbolic in range"}
     rep.assumptions = [
         "floats are reals; element kinds compared exactly",
